@@ -21,11 +21,12 @@ Theorem C07_none_dropped : forall method_name clean_id st doc,
 Proof. exact none_dropped. Qed.
 Print Assumptions C07_none_dropped.
 
-(* "generation fails when an operation cannot be represented" holds exactly when nothing is skipped *)
-Theorem C07_visible_failure_iff : forall mn tk ta tc cl sc pid st doc,
-  visible_failure mn tk ta tc cl sc pid st doc <-> skipped mn cl st doc = [].
-Proof. exact visible_failure_iff. Qed.
-Print Assumptions C07_visible_failure_iff.
+(* F07f fixed.  FULL: for every document, if some operation cannot be represented (is skipped by the parser)
+   generation fails instead of omitting it. *)
+Theorem C07_visible_failure : forall mn tk ta tc cl sc pid st doc,
+  visible_failure mn tk ta tc cl sc pid st doc.
+Proof. exact visible_failure_full. Qed.
+Print Assumptions C07_visible_failure.
 
 (* EndpointsEmitter's grouping, characterised for all operation lists: the group of key k lists every
    operation once per tag of it that normalises to k, in document order *)
@@ -146,12 +147,11 @@ Theorem C07_fixed_F07b :
 Proof. exact fixed_F07b. Qed.
 Print Assumptions C07_fixed_F07b.
 
-Theorem C07_refuted_F07f :
+Theorem C07_fixed_F07f :
   guard_F07f idf no_clean SOpId doc_F07f = false
-  /\ ~ visible_failure idf idf idf idf no_clean no_score (fun _ => true) SOpId doc_F07f
-  /\ length (parse idf no_clean SOpId doc_F07f) = 1%nat /\ length (ops doc_F07f) = 2%nat.
-Proof. exact refuted_F07f. Qed.
-Print Assumptions C07_refuted_F07f.
+  /\ generate idf idf idf idf no_clean no_score (fun _ => true) SOpId doc_F07f = Failed.
+Proof. exact fixed_F07f. Qed.
+Print Assumptions C07_fixed_F07f.
 
 Theorem C07_fixed_F07c :
   group key_F07c [op_F07c] = [(s_users, [op_F07c])]
